@@ -56,7 +56,13 @@ def generate(tier, rng):
                         base["solver"] = solver
                     d1 = [rng.randint(0, 6) for _ in range(N)]
                     d2 = [rng.randint(-3, 6) for _ in range(N)]
-                    cases.append(dict(stream="exact" if ex else "tolerance", coq=ex, gname=gname, extra=extra, base=base,
+                    tiny = False
+                    if ex and k % 4 == 0:
+                        # the same drivers in a tiny unit: scaling is part of linearity, at every magnitude
+                        d1 = [str(Fraction(v, 2 ** 40)) for v in d1]
+                        d2 = [str(Fraction(v, 2 ** 40)) for v in d2]
+                        tiny = True
+                    cases.append(dict(stream="exact" if ex else "tolerance", coq=ex, tiny=tiny, gname=gname, extra=extra, base=base,
                                       d1=d1, d2=d2, a=rng.choice([2, -1, 3]), b=rng.choice([1, 2, -2]), shift=rng.choice([37, -12, 100]),
                                       tails=[[rng.randint(0, 6) for _ in range(N)] for _ in range(len(grid))]))
     return cases
@@ -76,9 +82,16 @@ def _param_column(case, kidx):
     return lt
 
 
+def _F(case):
+    """the case with its drivers as Fractions (they may be written as strings)"""
+    return dict(case, d1=[Fraction(v) for v in case["d1"]], d2=[Fraction(v) for v in case["d2"]])
+
+
 def run_impl(case):
+    case = _F(case)
     b = case["base"]
-    snap = case["stream"] == "exact"
+    # (values in the tiny unit are exact binary fractions with large denominators: observed as they are, never snapped)
+    snap = case["stream"] == "exact" and not case.get("tiny")
     n = len(b["grid"])
     shp = sd.shape_of(b["grid"], b["extra"])
     N = int(np.prod(shp))
@@ -89,25 +102,27 @@ def run_impl(case):
         r = sd.run_stock(c, snap=snap)
         runs.append(dict(tag=tag, case=c, obs=r))
 
-    run("d1", dict(b, driver=case["d1"]))
-    run("d2", dict(b, driver=case["d2"]))
+    S = lambda l: [str(v) for v in l]
+    run("d1", dict(b, driver=S(case["d1"])))
+    run("d2", dict(b, driver=S(case["d2"])))
     comb = [case["a"] * x + case["b"] * y for x, y in zip(case["d1"], case["d2"])]
-    run("comb", dict(b, driver=comb))
+    run("comb", dict(b, driver=S(comb)))
     for j in range(N):
         e = [0] * N
         e[j] = 1
         run(f"imp{j}", dict(b, driver=e))
-    d1 = np.array(case["d1"]).reshape(n, K)
+    d1 = np.array(case["d1"], dtype=object).reshape(n, K)
+    unit = min([abs(v) for v in case["d1"] if v] + [Fraction(1)])      # the tails are written in the drivers' unit
     for t in range(n):
         d = d1.copy()
-        tail = np.array(case["tails"][t]).reshape(n, K)
+        tail = np.array([Fraction(v) * unit for v in case["tails"][t]], dtype=object).reshape(n, K)
         d[t + 1:, :] = tail[t + 1:, :]
-        run(f"trunc{t}", dict(b, driver=[int(x) for x in d.flatten()]))
+        run(f"trunc{t}", dict(b, driver=[str(x) for x in d.flatten()]))
     for kk in range(K):
-        run(f"alone{kk}", dict(b, extra=[], driver=[int(x) for x in d1[:, kk]], lifetime=_param_column(case, kk)))
-    run("shift", dict(b, grid=[g + case["shift"] for g in b["grid"]], driver=case["d1"]))
+        run(f"alone{kk}", dict(b, extra=[], driver=[str(x) for x in d1[:, kk]], lifetime=_param_column(case, kk)))
+    run("shift", dict(b, grid=[g + case["shift"] for g in b["grid"]], driver=S(case["d1"])))
     if b["cls"] != "simple":
-        runs.append(dict(tag="reuse", case=dict(b, driver=case["d1"]), obs=sd.run_stock_reuse(dict(b, driver=case["d1"]), case["d2"], snap=snap)))
+        runs.append(dict(tag="reuse", case=dict(b, driver=S(case["d1"])), obs=sd.run_stock_reuse(dict(b, driver=S(case["d1"])), S(case["d2"]), snap=snap)))
     return dict(kind="family", runs=runs)
 
 
@@ -116,6 +131,7 @@ def _get(r, key):
 
 
 def oracle(case, obs):
+    case = _F(case)
     runs = {r["tag"]: r for r in obs["runs"]}
     b = case["base"]
     for r in obs["runs"]:
